@@ -5,6 +5,8 @@ package kaisim
 // session's view before/after Discard and Rollback, and the emitted calls on Commit.
 
 import (
+	resourceapi "k8s.io/api/resource/v1"
+	"os"
 	"fmt"
 	"math"
 	"regexp"
@@ -100,6 +102,7 @@ func DumpSession(ssn *framework.Session) string {
 			fmt.Fprintf(&b, "  set %s %d/%d/%d\n", sn, ps.GetNumActiveAllocatedTasks(), ps.GetNumActiveUsedTasks(), ps.GetNumAliveTasks())
 		}
 	}
+	b.WriteString(dumpDRA(ssn))
 	if attrs, _ := proportion.QueueAttributesForSim(ssn.PluginForSim("proportion")); attrs != nil {
 		var qs []string
 		for q := range attrs {
@@ -193,6 +196,14 @@ func (r *Run) stmtFuzz(ssn *framework.Session) {
 	for pc < len(prog) {
 		stmt := ssn.Statement()
 		start := DumpSession(ssn)
+		draBrokenAtStart := false
+		if r.S.World.HasDRA() {
+			l, g, d := draTrackerMismatch(ssn)
+			draBrokenAtStart = len(l)+len(g)+len(d) > 0 || r.draDouble
+		}
+	if os.Getenv("KAISIM_DEBUG_DRA") != "" {
+		fmt.Printf("DRA-AT-START cycle=%d\n%s", r.cycle, dumpDRA(ssn))
+	}
 		type cpRec struct {
 			cp   framework.Checkpoint
 			dump string
@@ -330,6 +341,12 @@ func (r *Run) stmtFuzz(ssn *framework.Session) {
 						rule += s
 					} else if gpuCounterOnlyDiff(cps[i].dump, now) {
 						rule += "_shared_gpu_counters"
+					} else if unconsumedClaimOnlyDiff(cps[i].dump, now) {
+						rule += "_unconsumed_claim_deallocated"
+					} else if draBrokenAtStart {
+						rule += "_dra_view_inconsistent_before"
+					} else if draOnlyDiff(cps[i].dump, now) {
+						rule += "_dra_claims"
 					}
 					r.Fail("C13", rule, "after Rollback to checkpoint %d (statement program %v): %s", i, prog, d)
 				}
@@ -375,6 +392,12 @@ func (r *Run) stmtFuzz(ssn *framework.Session) {
 					rule += s
 				} else if gpuCounterOnlyDiff(start, now) {
 					rule += "_shared_gpu_counters"
+				} else if unconsumedClaimOnlyDiff(start, now) {
+					rule += "_unconsumed_claim_deallocated"
+				} else if draBrokenAtStart {
+					rule += "_dra_view_inconsistent_before"
+				} else if draOnlyDiff(start, now) {
+					rule += "_dra_claims"
 				}
 				r.Fail("C13", rule, "after Discard (statement program %v): %s", prog, d)
 			}
@@ -415,4 +438,256 @@ func (r *Run) c13Signature() string {
 		}
 	}
 	return ""
+}
+
+// dumpDRA: the scheduler's view of resource claims (the DRA manager's assume cache): per claim the allocated devices and
+// the consumers, plus the set of devices it considers allocated, plus what every active task remembers about its claims.
+func dumpDRA(ssn *framework.Session) (out string) {
+	defer func() {
+		if recover() != nil {
+			out = ""
+		}
+	}()
+	kp := ssn.InternalK8sPlugins()
+	if kp == nil || kp.FrameworkHandle == nil {
+		return ""
+	}
+	mgr := kp.FrameworkHandle.SharedDRAManager()
+	if mgr == nil {
+		return ""
+	}
+	claims, err := mgr.ResourceClaims().List()
+	if err != nil || len(claims) == 0 {
+		return ""
+	}
+	var lines []string
+	for _, c := range claims {
+		if mgr.ResourceClaims().ClaimHasPendingAllocation(c.UID) {
+			// the claim's allocation is in flight (its pod is being bound): the assume cache may or may not hold the
+			// allocation as well, which no reader can tell apart; the device set below includes it either way
+			lines = append(lines, fmt.Sprintf("claim %s allocation in flight", c.Name))
+			continue
+		}
+		var devs, cons []string
+		if c.Status.Allocation != nil {
+			for _, d := range c.Status.Allocation.Devices.Results {
+				devs = append(devs, d.Pool+"/"+d.Device)
+			}
+		}
+		for _, rf := range c.Status.ReservedFor {
+			cons = append(cons, rf.Name)
+		}
+		sort.Strings(devs)
+		sort.Strings(cons)
+		lines = append(lines, fmt.Sprintf("claim %s devices=%v consumers=%v", c.Name, devs, cons))
+	}
+	sort.Strings(lines)
+	if ids, err := mgr.ResourceClaims().ListAllAllocatedDevices(); err == nil {
+		var ds []string
+		for id := range ids {
+			ds = append(ds, id.String())
+		}
+		sort.Strings(ds)
+		lines = append(lines, fmt.Sprintf("allocated devices %v", ds))
+	}
+	for _, job := range ssn.ClusterInfo.PodGroupInfos {
+		for _, t := range job.GetAllPodsMap() {
+			if !pod_status.IsActiveUsedStatus(t.Status) || len(t.ResourceClaimInfo) == 0 {
+				continue
+			}
+			var parts []string
+			for ref, ci := range t.ResourceClaimInfo {
+				var devs []string
+				if ci != nil && ci.Allocation != nil {
+					for _, d := range ci.Allocation.Devices.Results {
+						devs = append(devs, d.Pool+"/"+d.Device)
+					}
+				}
+				sort.Strings(devs)
+				parts = append(parts, fmt.Sprintf("%s=%v", ref, devs))
+			}
+			sort.Strings(parts)
+			lines = append(lines, fmt.Sprintf("taskclaims %s %v", t.Name, parts))
+		}
+	}
+	sort.Strings(lines)
+	return strings.Join(lines, "\n") + "\n"
+}
+
+var claimLine = regexp.MustCompile(`^claim (\S+) devices=\[(.*)\] consumers=\[(.*)\]$`)
+
+// unconsumedClaimOnlyDiff: the dumps differ only in claims that were allocated WITHOUT any consumer before (a legal
+// API state between the last consumer's end and the claim controller's deallocation) and are unallocated after, and in
+// the device set line that follows from it (signature of the finding "undoing the allocation of a consumer deallocates
+// a claim that was allocated before the statement").
+func unconsumedClaimOnlyDiff(a, b string) bool {
+	la, lb := strings.Split(a, "\n"), strings.Split(b, "\n")
+	if len(la) != len(lb) {
+		return false
+	}
+	found := false
+	for i := range la {
+		if la[i] == lb[i] {
+			continue
+		}
+		if strings.HasPrefix(la[i], "allocated devices ") && strings.HasPrefix(lb[i], "allocated devices ") {
+			continue
+		}
+		ma, mb := claimLine.FindStringSubmatch(la[i]), claimLine.FindStringSubmatch(lb[i])
+		if ma == nil || mb == nil || ma[1] != mb[1] {
+			return false
+		}
+		if ma[2] != "" && ma[3] == "" && mb[2] == "" && mb[3] == "" {
+			found = true
+			continue
+		}
+		return false
+	}
+	return found
+}
+
+// draTrackerMismatch compares the DRA manager's set of allocated devices (what the structured allocator treats as
+// taken) with the devices of the allocated claims in the same manager's claim cache plus the allocations in flight
+// (pods that are being bound). lost = held by a claim but not in the set; ghost = in the set but held by no claim.
+func draTrackerMismatch(ssn *framework.Session) (lost, ghost, double []string) {
+	defer func() { _ = recover() }()
+	kp := ssn.InternalK8sPlugins()
+	if kp == nil || kp.FrameworkHandle == nil {
+		return
+	}
+	mgr := kp.FrameworkHandle.SharedDRAManager()
+	if mgr == nil {
+		return
+	}
+	claims, err := mgr.ResourceClaims().List()
+	if err != nil {
+		return
+	}
+	ids, err := mgr.ResourceClaims().ListAllAllocatedDevices()
+	if err != nil {
+		return
+	}
+	tracked := map[string]bool{}
+	for id := range ids {
+		tracked[id.String()] = true
+	}
+	want := map[string]bool{}
+	holders := map[string][]string{}
+	for _, c := range claims {
+		if c.Status.Allocation != nil {
+			for _, d := range c.Status.Allocation.Devices.Results {
+				want[d.Driver+"/"+d.Pool+"/"+d.Device] = true
+				holders[d.Driver+"/"+d.Pool+"/"+d.Device] = append(holders[d.Driver+"/"+d.Pool+"/"+d.Device], c.Name)
+			}
+		}
+	}
+	for d, hs := range holders {
+		if len(hs) > 1 {
+			sort.Strings(hs)
+			double = append(double, fmt.Sprintf("%s held by %v", d, hs))
+		}
+	}
+	sort.Strings(double)
+	for _, job := range ssn.ClusterInfo.PodGroupInfos {
+		for _, t := range job.GetAllPodsMap() {
+			if t.BindRequest == nil || t.BindRequest.BindRequest == nil {
+				continue
+			}
+			for _, ca := range t.BindRequest.BindRequest.Spec.ResourceClaimAllocations {
+				if ca.Allocation != nil {
+					for _, d := range ca.Allocation.Devices.Results {
+						want[d.Driver+"/"+d.Pool+"/"+d.Device] = true
+					}
+				}
+			}
+		}
+	}
+	for d := range want {
+		if !tracked[d] {
+			lost = append(lost, d)
+		}
+	}
+	for d := range tracked {
+		if !want[d] {
+			ghost = append(ghost, d)
+		}
+	}
+	sort.Strings(lost)
+	sort.Strings(ghost)
+	return
+}
+
+// draOnlyDiff: the dumps differ only in lines of the DRA view (claims, allocated device set, what tasks remember).
+func draOnlyDiff(a, b string) bool {
+	isDRA := func(l string) bool {
+		return strings.HasPrefix(l, "claim ") || strings.HasPrefix(l, "allocated devices ") || strings.HasPrefix(l, "taskclaims ")
+	}
+	keep := func(s string) (rest []string, dra []string) {
+		for _, l := range strings.Split(s, "\n") {
+			if isDRA(l) {
+				dra = append(dra, l)
+			} else {
+				rest = append(rest, l)
+			}
+		}
+		return
+	}
+	ra, da := keep(a)
+	rb, db := keep(b)
+	return strings.Join(ra, "\n") == strings.Join(rb, "\n") && strings.Join(da, "\n") != strings.Join(db, "\n")
+}
+
+// draViewVsAPI: claims whose allocation in the scheduler's claim cache differs from the API object although no pod
+// referencing the claim received a decision (bind, nomination, eviction) in this cycle and no allocation is in flight.
+func draViewVsAPI(r *Run, ssn *framework.Session) (out []string) {
+	defer func() { _ = recover() }()
+	kp := ssn.InternalK8sPlugins()
+	if kp == nil || kp.FrameworkHandle == nil {
+		return
+	}
+	mgr := kp.FrameworkHandle.SharedDRAManager()
+	if mgr == nil {
+		return
+	}
+	claims, err := mgr.ResourceClaims().List()
+	if err != nil {
+		return
+	}
+	touchedPods := map[string]bool{}
+	for _, d := range r.Sched.Obs.CycleDecisions(r.cycle) {
+		touchedPods[d.Pod] = true
+	}
+	touched := map[string]bool{}
+	for _, p := range r.API.Pods() {
+		if touchedPods[p.Name] || p.DeletionTimestamp != nil {
+			for _, cn := range podClaimNames(p) {
+				touched[cn] = true
+			}
+		}
+	}
+	devs := func(a *resourceapi.AllocationResult) string {
+		if a == nil {
+			return "[]"
+		}
+		var ds []string
+		for _, d := range a.Devices.Results {
+			ds = append(ds, d.Pool+"/"+d.Device)
+		}
+		sort.Strings(ds)
+		return fmt.Sprint(ds)
+	}
+	for _, c := range claims {
+		if touched[c.Name] || mgr.ResourceClaims().ClaimHasPendingAllocation(c.UID) {
+			continue
+		}
+		api := r.API.Claim(c.Name)
+		if api == nil {
+			continue
+		}
+		if a, b := devs(c.Status.Allocation), devs(api.Status.Allocation); a != b {
+			out = append(out, fmt.Sprintf("claim %s: the scheduler believes it holds %s, the API object says %s, and no pod using it was bound, nominated or evicted in this cycle", c.Name, a, b))
+		}
+	}
+	sort.Strings(out)
+	return
 }
